@@ -50,6 +50,14 @@ def rules(ctx, tier):
     r.need(6, "lookup body, reading closures, blob opener")
     out.append(r.finish())
 
+    r = Rule("R8", "present/absent at the API surface is the lookup's verdict: a read entry point returns Ok(Some(..)) only "
+                   "behind the found-edge of the key-map lookup and Ok(None) only behind its not-found edge",
+             "a read of an absent key answers with a value (an early return in front of the lookup), or a present key "
+             "is reported absent")
+    surface_agrees(ctx, r)
+    r.need(4, "Option-returning read entry points")
+    out.append(r.finish())
+
     r = Rule("R4", "iteration is the map's: the read view hands out the BTreeMap's own iterators and reads only the "
                    "guarded state",
              "keys are returned in another order, or from a second copy that is out of date")
@@ -250,6 +258,148 @@ def counter_in_apply_body(ctx, r, root, val, where):
     return True
 
 
+def leaf_role(ctx, body, l):
+    """Role of the field a parameter leaf ends in, by the field's TYPE (never by its name): "hash" (the hash type),
+    "size" (u64/usize), "key" (anything else: the generic key, or a list of keys); None if the leaf is not a field of a
+    parameter."""
+    prog = ctx.prog
+    if l[0] not in ("param", "xparam") or not l[2]:
+        return None
+    from .c06 import leaf_root_adt
+    d = leaf_root_adt(prog, body, l)
+    fname = l[2][-1]
+    if fname.startswith("#"):
+        return None
+    if len(l[2]) > 1:
+        return None
+    tys = set()
+    for v in (prog.adts.get(d) or {}).get("variants", []):
+        for f in v["fields"]:
+            if f["name"] == fname:
+                tys.add(f["ty"])
+    if not tys:
+        return None
+    roles = set()
+    for ty in tys:
+        if prog.adt_of(ty)[0] == ctx.anchors.get("HASH"):
+            roles.add("hash")
+        elif prog.ty_str(ty) in ("u64", "usize"):
+            roles.add("size")
+        else:
+            roles.add("key")
+    return roles.pop() if len(roles) == 1 else None
+
+
+def _option_shape(V, op, depth=0):
+    """{"Some"} / {"None"} / mixed / empty: the variants of the Option aggregates an operand is copied from (empty when
+    it comes from anything else, e.g. a call)."""
+    pl = place_of(op)
+    if pl is None or pl["p"] or depth > 8:
+        return set()
+    out = set()
+    defs = V.assignments().get(pl["l"], [])
+    if not defs:
+        return set()
+    for (dbb, j, rv) in defs:
+        if j == "term":
+            return set()
+        if rv["k"] == "agg" and rv.get("def") == "std::option::Option":
+            out.add(rv.get("vn"))
+        elif rv["k"] == "use":
+            sub = _option_shape(V, rv["op"], depth + 1)
+            if not sub:
+                return set()
+            out |= sub
+        else:
+            return set()
+    return out
+
+
+def surface_agrees(ctx, r):
+    """On the flat view of each read entry point that returns Result<Option<_>>: every exit that definitely builds
+    Ok(Some(..)) is dominated by the Some edge of a test of the key-map lookup, every exit that definitely builds
+    Ok(None) by its None edge.  Exits whose shape is not a plain aggregate (e.g. `result.map(Some)`) are left to R3."""
+    prog = ctx.prog
+    rroots = read_roots(ctx) + [b for b in ctx.live_roots() if b.path.endswith("get_size")]
+    get_keys = set(cu.site.key() for cu in ctx.world.container_uses
+                   if ANCHOR_FIELDS.get(cu.field) == "KEYMAP" and cu.method in ("get", "get_key_value", "contains_key"))
+    seen = set()
+    for root in rroots:
+        if root.path in seen:
+            continue
+        seen.add(root.path)
+        if not prog.ty_str(root.locals[0]).startswith("std::result::Result<std::option::Option<"):
+            continue
+        V = ctx.flat(root)
+        sl = Slicer(ctx.world, V)
+        accessor_bodies = set(k[0] for k in get_keys)
+        gets = [s.bb for s in V.sites(("call",)) if s.key() in get_keys or (
+            prog.local_target(s) is not None and prog.local_target(s).path in accessor_bodies)]
+        name = root.path.split("::")[-1]
+        if not gets:
+            r.bad("surface-lookup:%s" % name, root, "%s returns an Option but no key-map lookup is visible in it" % root.path)
+            continue
+        # edges of tests on the lookup result
+        some_edges, none_edges = [], []
+        for sw in V.normal_blocks():
+            c = cfgutil.switch_condition(V, sw)
+            if not c or c[0] != "discr":
+                continue
+            src = sl.leaves_of_place(c[1])
+            if not src or not all(l[0] == "call" and l[2] in gets for l in src):
+                continue
+            e = cfgutil.switch_edges(V, sw)
+            listed = [v for v in e if v != "otherwise"]
+            for v, t in e.items():
+                if t is None:
+                    continue
+                if v == "otherwise":
+                    v = 1 - listed[0] if listed in ([0], [1]) else None
+                if v == 1:
+                    some_edges.append((sw, t))
+                elif v == 0:
+                    none_edges.append((sw, t))
+        n_some = n_none = 0
+        # locals whose value is moved, unchanged, into the view's return place
+        ret = {0}
+        changed = True
+        while changed:
+            changed = False
+            for l2 in list(ret):
+                for (dbb, j, rv) in V.assignments().get(l2, []):
+                    if j != "term" and rv["k"] == "use":
+                        pl = place_of(rv["op"])
+                        if pl is not None and not pl["p"] and pl["l"] not in ret:
+                            ret.add(pl["l"])
+                            changed = True
+        for bb in V.normal_blocks():
+            for st in V.stmts(bb):
+                if not (st["k"] == "assign" and not st["lhs"]["p"] and st["rv"]["k"] == "agg"
+                        and st["rv"].get("vn") == "Ok" and st["rv"]["ops"]):
+                    continue
+                # only values that reach the view's own return place
+                if st["lhs"]["l"] not in ret:
+                    continue
+                lv = _option_shape(V, st["rv"]["ops"][0])
+                if not lv:
+                    continue
+                where = "%s:%d" % (V.blocks[bb]["span"].get("file", root.file), st.get("line", 0))
+                if lv == {"Some"}:
+                    n_some += 1
+                    r.check(bool(some_edges) and cfgutil.edges_dominate(V, some_edges, bb), "present-only-if-found:%s" % name, root,
+                            "%s answers Ok(Some(..)) at %s only after the lookup found the key" % (root.path, where),
+                            "%s can answer Ok(Some(..)) at %s on a path on which the key-map lookup did not find the key "
+                            "(or was not made): an absent key is reported as present" % (root.path, where), where)
+                elif lv == {"None"}:
+                    n_none += 1
+                    r.check(bool(none_edges) and cfgutil.edges_dominate(V, none_edges, bb), "absent-only-if-not-found:%s" % name, root,
+                            "%s answers Ok(None) at %s only after the lookup missed" % (root.path, where),
+                            "%s can answer Ok(None) at %s on a path on which the key-map lookup found the key (or was "
+                            "not made)" % (root.path, where), where)
+        if n_some + n_none == 0:
+            r.note("%s: no plain Ok(Some)/Ok(None) aggregate exits in its view (left to R3)" % root.path)
+
+
 def derives_from(ctx, body, sl, op, pred, depth=0):
     """Does the operand derive (through calls and their arguments) from a call whose events satisfy pred?"""
     if depth > 6:
@@ -292,21 +442,23 @@ def apply_denotes(ctx, r):
             args = cu.site.term["args"]
             if cu.method == "insert":
                 k = sl.leaves_of_operand(args[1])
-                okk = bool(k) and all(l[0] == "param" and l[2] and "key" in l[2][-1] for l in k)
+                okk = bool(k) and all(l[0] == "param" and leaf_role(ctx, b, l) == "key" for l in k)
                 r.check(okk, "insert-key", b, "insert key = %s" % sorted(fmt_leaf(l) for l in k),
                         "the key inserted at %s has origins %s (expected: the op's key)" % (
                             site_where(cu.site), sorted(fmt_leaf(l) for l in k)), site_where(cu.site))
                 for fname in item_fields:
                     v = sl.leaves_of_operand(args[2], path=(fname,))
-                    want = "hash" if "hash" in fname else ("size" if "size" in fname else fname)
-                    okv = bool(v) and all(l[0] == "param" and l[2] and want in l[2][-1] for l in v)
+                    fty = [f["ty"] for f in prog.adts[item]["variants"][0]["fields"] if f["name"] == fname][0]
+                    want = "hash" if prog.adt_of(fty)[0] == A.get("HASH") else (
+                        "size" if prog.ty_str(fty) in ("u64", "usize") else "key")
+                    okv = bool(v) and all(l[0] == "param" and leaf_role(ctx, b, l) == want for l in v)
                     r.check(okv, "insert-value:%s" % fname, b,
                             "stored %s = %s" % (fname, sorted(fmt_leaf(l) for l in v)),
                             "the %s stored at %s has origins %s (expected: the op's %s)" % (
                                 fname, site_where(cu.site), sorted(fmt_leaf(l) for l in v), want), site_where(cu.site))
             elif cu.method == "remove":
                 k = sl.leaves_of_operand(args[1])
-                okk = bool(k) and all(l[0] == "param" and l[2] and "key" in l[2][-1] for l in k)
+                okk = bool(k) and all(l[0] == "param" and leaf_role(ctx, b, l) == "key" for l in k)
                 r.check(okk, "remove-key", b, "removed key = %s (loop item of the op's key list)" % sorted(fmt_leaf(l) for l in k),
                         "the key removed at %s has origins %s (expected: an item of the op's key list)" % (
                             site_where(cu.site), sorted(fmt_leaf(l) for l in k)), site_where(cu.site))
@@ -473,8 +625,6 @@ def reads_resolve(ctx, r):
                 if pl is None:
                     continue
                 lv = sl.leaves_of_operand(a)
-                for hashf in ("blob_hash",):
-                    pass
                 if any(l[0] == "call" and l[2] in [g.bb for g in gets] for l in lv) and s.bb not in [g.bb for g in gets]:
                     uses_item = True
                     others = [l for l in lv if not (l[0] == "call" and l[2] in [g.bb for g in gets])
@@ -506,7 +656,7 @@ def reads_resolve(ctx, r):
                         continue
                     if prog.adt_of(cb.locals[pl["l"]])[0] == hash_ty or (i < tgt.argc and prog.adt_of(tgt.locals[i + 1])[0] == hash_ty):
                         lv = csl.leaves_of_operand(a)
-                        ok = bool(lv) and all(l[0] == "param" and l[2] and "hash" in l[2][-1] for l in lv)
+                        ok = bool(lv) and all(l[0] == "param" and leaf_role(ctx, cb, l) == "hash" for l in lv)
                         r.check(ok, "closure-hash:%s" % stable_path(cb), cb,
                                 "%s passes item.%s to %s" % (stable_path(cb), "/".join(sorted(set(l[2][-1] for l in lv if l[2]))),
                                                              tgt.path.split("::")[-1]),
@@ -519,7 +669,7 @@ def reads_resolve(ctx, r):
                     for st in cb.stmts(bb):
                         if st["k"] == "assign" and st["lhs"]["l"] == 0 and st["rv"]["k"] == "agg" and st["rv"].get("vn") == "Ok":
                             lv = csl.leaves_of_operand(st["rv"]["ops"][0])
-                            ok = bool(lv) and all(l[0] == "param" and l[2] and "size" in l[2][-1] for l in lv)
+                            ok = bool(lv) and all(l[0] == "param" and leaf_role(ctx, cb, l) == "size" for l in lv)
                             r.check(ok, "closure-size:%s" % stable_path(cb), cb,
                                     "%s returns item.%s" % (stable_path(cb), "/".join(sorted(set(l[2][-1] for l in lv if l[2])))),
                                     "%s returns a size with origins %s" % (stable_path(cb), sorted(fmt_leaf(l) for l in lv)))
